@@ -155,7 +155,7 @@ impl<W: WorldOps> Engine<W> {
                     }
                 } else {
                     let q = self.rng.below(self.queries.len());
-                    let mode = self.rng.below(3);
+                    let mode = self.rng.below(QUERY_MODES.len());
                     let total: usize = (0..self.archs.len()).filter(|ai| self.qmatch[q][*ai].is_some()).map(|ai| self.sl(wi).m.archs[ai].live.len()).sum();
                     if total == 0 {
                         return touched;
